@@ -320,7 +320,7 @@ func (w *W) onPanic(r any) {
 	}
 	msg := fmt.Sprint(r)
 	if lib {
-		w.Violate("library-panic", map[string]string{"func": fn, "panic": trunc(msg, 120)},
+		w.Violate("library-panic", map[string]string{"func": fn, "panic": trunc(normalizeDigits(msg), 120)},
 			"library panicked: %v\n%s", r, stack)
 		return
 	}
@@ -461,3 +461,22 @@ var startTime = time.Now()
 
 // SelfRand returns a fixed PRNG for oracle self-tests.
 func SelfRand(seed uint64) *rand.Rand { return rand.New(rand.NewPCG(seed, 0x5e1f7e57)) }
+
+// normalizeDigits replaces every run of digits by N so that panic messages that differ
+// only in indexes or lengths share one signature.
+func normalizeDigits(s string) string {
+	var sb strings.Builder
+	in := false
+	for _, r := range s {
+		if r >= '0' && r <= '9' {
+			if !in {
+				sb.WriteByte('N')
+			}
+			in = true
+			continue
+		}
+		in = false
+		sb.WriteRune(r)
+	}
+	return sb.String()
+}
